@@ -20,6 +20,16 @@ Per work item (one detector configuration x one 5-symbol family of the step alph
 Plus three lattice items: the two functions of ``physics/statistics.py`` directly, exact ties ``metric == bound``
 (dyadic arithmetic, "reaches the bound" = detection), and constructor defaults / the no-detector branch.
 
+Reporting layer ("... and reports that statistic as its metric"): what the library reports for a declared maneuver is
+the ``DetectedManeuver`` record that ``EstimateAgent.update`` builds.  (a) In the unit-1 explorer items the transitions
+of the tree (and steps 12 / 50 of the tails) are repeated through a real ``EstimateAgent`` around a ``_ScriptedUKF``
+(real UKF, ``update`` reduced to the last lines of ``UnscentedKalmanFilter.update`` with the explorer's innovation),
+serially and through ``EstUpdateRegistration`` + ``asyncUpdateEstimate`` over the in-process ray; (b) items ``real`` run
+a fully real agent (factory-built UKF + detector, real observations of varying dimension, a burn in the truth) and
+recompute the documented statistic from the history of the filter's own innovations.  Every record: nis = single-step
+statistic, metric = the detector's documented statistic, threshold, method, sensor ids, epoch, target; one record
+exactly when a maneuver was declared.
+
 Unit dimension (the statistic nu^T S^-1 nu has no unit): every explorer item carries a unit u; all its innovations are
 expressed in that unit (nu -> u nu, S -> u^2 S; kind-M covariances: only the first block).  The old families run at
 u = 1; the families FC* (strongly correlated covariances: every pairwise correlation >= 0.9, and block-diagonal
@@ -82,7 +92,22 @@ RULE = (
     "give the decisions and (to 2.1e-11) the metrics of the u = 1 run. The stat lattice (quadratic form: dim 1..8 x "
     "kinds I,S,C,M,W x 4 magnitudes x 2 signs; W = every pairwise correlation 1e-6) and the defaults lattice (7 "
     "detectors x 21 steps x kinds S,C,M,W) run at "
-    "the units {1e-9, 1e-6, 1 arcsec = 4.848e-6, 1e-3, 1, 1e3, 1e6}; exact ties at the units 2^-20, 1, 2^10."
+    "the units {1e-9, 1e-6, 1 arcsec = 4.848e-6, 1e-3, 1, 1e3, 1e6}; exact ties at the units 2^-20, 1, 2^10. "
+    "REPORTING LAYER ('reports that statistic as its metric' = the DetectedManeuver record built by "
+    "EstimateAgent.update): (a) in every unit-1 explorer item the transition of a tree step of dimension >= 2 is "
+    "repeated through a real EstimateAgent around a real UKF whose update() keeps only the last lines of "
+    "UnscentedKalmanFilter.update (harness innovation, real nis, real checkManeuverDetection): every declared maneuver "
+    "and every 4th nominal step of the histories of length <= 3, every 3rd of those of the longer ones, and step 12 "
+    "/ 50 of every constant tail that starts at depth <= 3; every 4th (tails: every 2nd) through the job path "
+    "EstUpdateRegistration + asyncUpdateEstimate over the in-process ray; sensor sets of 1 / 2 / 3 / 1 sensors "
+    "rotating; (b) items 'real': per detector configuration (quick: the standard detector and every window / delta at "
+    "one threshold each; thorough: all) x burn {0, 0.42, 2.8 m/s at step 5} x {serial, job path}: 14 steps of a fully "
+    "real agent (factory-built UKF and detector, real Observations of 2 / 3 / 4 dimensions from 1..3 sensors stacked "
+    "to 2..8, one step without observation; the seed rotates the observation pattern), reference statistic recomputed "
+    "from the whole history of the filter's own innovation / innov_cvr.  One evaluation of 'report/*' = one field "
+    "group of one record (count, metric, nis, threshold, reaches its bound, method, sensor ids, epoch + target); "
+    "non-trivial for metric / nis / reaches_bound = the detector's statistic differs from the single-step NIS by more "
+    "than 1e-3 (relative), for count = a maneuver was declared, for sensor ids = more than one sensor."
 )
 ASSUMPTIONS = [
     "scipy.special.gammainccinv/gammaincc (validated against each other) are the chi-square reference",
@@ -92,6 +117,11 @@ ASSUMPTIONS = [
     "agree to < 1e-12 relative; decisions with |metric/bound - 1| <= 1e-9 are classified either-way, except exact "
     "dyadic ties where both sides are computed without rounding",
     "innovations are 1-D arrays, as UnscentedKalmanFilter.update produces them",
+    "reporting layer: the documented content of a DetectedManeuver is its column docstrings (nis = NIS at the time of "
+    "the detection, metric = maneuver metric, threshold = threshold the maneuver was tested against, method = detector "
+    "class, sensor_list = the sensors of the step); the scripted UKF replaces only the part of update() that produces "
+    "innovation and innov_cvr (subject of the filter properties); real runs: correlation matrix of innov_cvr has "
+    "condition < 1e5 (checked per step), tolerance 1e-9",
     "a change of unit multiplies innovation and covariance entries by non-dyadic factors: the reference is evaluated on "
     "the very floats handed to the code under test, so no extra tolerance is needed per run; mixed-unit (kind M) "
     "covariances are block diagonal and their unit ratio is kept within 1e-6..1e6 (covariance ratio <= 1e12, "
@@ -247,6 +277,24 @@ def bounds(tier, seed):
             "W": "as C with rho = 1e-6 (direct lattices only)",
         },
         "explore_items": len(_explore_items(tier, seed)),
+        "reporting_layer": {
+            "scripted_agent_steps": "unit-1 explorer items; tree steps of dimension >= 2: all detections + every 4th nominal "
+            f"step up to depth {REPORT_FULL_DEPTH}, every 3rd of those deeper; tail steps 12 and 50 of tails starting at depth "
+            f"<= {REPORT_FULL_DEPTH}; job path every 4th tree step / every 2nd tail step",
+            "scripted_sensor_sets": [list(x) for x in SCRIPT_SENSOR_SETS],
+            "real_items": [list(x[1:4]) for x in _real_items(tier, seed)],
+            "real_steps": REAL_STEPS,
+            "real_dt_s": REAL_DT,
+            "real_burns_km_s": REAL_BURNS,
+            "real_burn_step": REAL_BURN_STEP,
+            "real_paths": ["serial EstimateAgent.update", "EstUpdateRegistration + asyncUpdateEstimate"],
+            "real_observation_pattern": ["+".join(k) or "none" for k in REAL_PATTERN],
+            "real_pattern_rotation": int(seed) % len(REAL_PATTERN),
+            "real_rel_tol": REAL_TOL,
+            "real_max_condition_of_innovation_correlation": REAL_COND_MAX,
+            "epoch_tol_days": JD_TOL,
+            "columns_distinguishable_when_rel_difference_gt": DISTINCT,
+        },
         "thresholds": THRESHOLDS,
         "windows": WINDOWS,
         "deltas": DELTAS,
